@@ -2,7 +2,7 @@
 import z3
 from . import core
 from .core import C, pvar
-from .values import SBit, SInt, SLin, mkbit
+from .values import SBit, SInt, SLin, mkbit, ByteSeqOps
 
 
 def _term(x):
@@ -74,18 +74,40 @@ class SZInt:
         return SZInt(self.t * k)
     __rmul__ = __mul__
     def __mod__(self, m): return SZInt(self.t % int(m))
+    def _and_const(self, c):
+        """x & c for a constant c >= 0 and x >= 0: every run of one-bits [a, b) of c contributes ((x div 2^a) mod 2^(b-a)) * 2^a"""
+        c = int(c)
+        if c < 0: raise core.OutOfReach("negative mask on symbolic integer")
+        t, a = z3.IntVal(0), 0
+        first = True
+        while c >> a:
+            if not (c >> a) & 1:
+                a += 1
+                continue
+            b = a
+            while (c >> b) & 1:
+                b += 1
+            run = (self.t % (1 << b)) if a == 0 else ((self.t / (1 << a)) % (1 << (b - a))) * (1 << a)
+            t = run if first else t + run
+            first = False
+            a = b
+        return t
     def __and__(self, mask):
-        mask = int(mask)
-        if mask < 0 or mask & (mask + 1): raise core.OutOfReach("mask on symbolic integer")
-        return SZInt(self.t % (mask + 1))
+        if not isinstance(mask, int): raise core.OutOfReach("bitwise operation between symbolic integers")
+        return SZInt(self._and_const(mask))
     __rand__ = __and__
     def __invert__(self): return SZInv(self)
     def __xor__(self, mask):
-        mask = int(mask)
-        if mask < 0 or mask & (mask + 1): raise core.OutOfReach("xor of a symbolic integer with a value that is not 2^k - 1")
-        low = self.t % (mask + 1)
-        return SZInt(self.t - low + (mask - low))
+        if not isinstance(mask, int): raise core.OutOfReach("bitwise operation between symbolic integers")
+        if mask >= 0 and not mask & (mask + 1):
+            low = self.t % (mask + 1)
+            return SZInt(self.t - low + (mask - low))
+        return SZInt(self.t + mask - 2 * self._and_const(mask))
     __rxor__ = __xor__
+    def __or__(self, mask):
+        if not isinstance(mask, int): raise core.OutOfReach("bitwise operation between symbolic integers")
+        return SZInt(self.t + mask - self._and_const(mask))
+    __ror__ = __or__
     def __index__(self): raise core.OutOfReach("a symbolic integer used as an index / count")
     def bit(self, i): return zbool((self.t / (1 << i)) % 2 == 1)
     def to_bytes(self, length=1, byteorder="big", signed=False):
@@ -128,7 +150,7 @@ class SZInv:
         return self.x
 
 
-class ZBytes:
+class ZBytes(ByteSeqOps):
     """octet string whose elements are word-level integers (SZInt in 0..255, or ints): what bytes([...]) / to_bytes() give
     for symbolic integers; arithmetic on it stays in linear integer arithmetic, no bit extraction"""
 
@@ -155,7 +177,7 @@ class ZBytes:
             return list(o.v)
         if isinstance(o, (bytes, bytearray)):
             return list(o)
-        if type(o).__name__ == "SBytes":
+        if type(o).__name__ in ("SBytes", "SByteArray"):
             return list(o.v)
         raise core.OutOfReach("concatenation of word-level octets with %s" % type(o).__name__)
 
@@ -164,6 +186,9 @@ class ZBytes:
 
     def __radd__(self, o):
         return ZBytes(ZBytes._items(o) + self.v)
+
+    def __mul__(self, k):
+        return ZBytes(self.v * k)
 
     def __eq__(self, o):
         try:
